@@ -148,7 +148,7 @@ class Program:
 
 # ----------------------------------------------------------------------------------------
 class Frame:
-    __slots__ = ("locals", "func", "module", "closure", "mangle", "owner", "self_arg", "is_class", "globals_decl", "site_fn")
+    __slots__ = ("locals", "func", "module", "closure", "mangle", "owner", "self_arg", "is_class", "globals_decl", "site_fn", "yields")
 
     def __init__(self, module, func=None, closure=(), mangle=None, owner=None, is_class=False):
         self.locals = {}
@@ -158,6 +158,7 @@ class Frame:
         self.mangle = mangle
         self.owner = owner
         self.self_arg = None
+        self.yields = None
         self.is_class = is_class
         self.globals_decl = set()
         self.site_fn = func.qualname if func is not None else "<module>"
@@ -1301,6 +1302,22 @@ class Interp:
             if all(self.truth(self.eval(c, sub), c) for c in g.ifs):
                 self.comp(gens, i + 1, sub, emit, node)
 
+    def _gen_frame(self, fr, node):
+        if getattr(fr, "yields", None) is None:
+            self.unsupported("yield outside an eagerly evaluated generator", node)
+        return fr
+
+    def e_Yield(self, e, fr):
+        self._gen_frame(fr, e).yields.append(self.eval(e.value, fr) if e.value is not None else None)
+        return None
+
+    def e_YieldFrom(self, e, fr):
+        kind, items = self.iterate(self.eval(e.value, fr), e)
+        if kind != "known":
+            self.unsupported("yield from an iterable of unknown length", e)
+        self._gen_frame(fr, e).yields.extend(items)
+        return None
+
     def e_Starred(self, e, fr):
         self.unsupported("starred", e)
 
@@ -1647,6 +1664,16 @@ class Interp:
         try:
             if isinstance(f.node, ast.Lambda):
                 return self.eval(f.node.body, fr)
+            if getattr(f, "is_gen", None) is None:
+                f.is_gen = any(isinstance(n, (ast.Yield, ast.YieldFrom)) for n in ast.walk(f.node))
+            if f.is_gen:
+                # generators are evaluated eagerly: the yielded values become a one-shot iterator
+                fr.yields = []
+                try:
+                    self.exec_block(f.node.body, fr)
+                except ReturnEx:
+                    pass
+                return IterV(ListV(fr.yields), None, "generator")
             try:
                 self.exec_block(f.node.body, fr)
             except ReturnEx as r:
